@@ -117,6 +117,9 @@ def make_enabled(kinds, per_endpoint=False, faults=('dup', 'drop'), timeouts=Fal
             evs += trigger_events(world, kinds, None, timers_any_state)
         if timeouts and b.get('tick', 0) > 0 and next_retransmit_deadline(world) is not None:
             evs.append(('timeout',))
+        if 'status' in kinds and b.get('status', 0) > 0:
+            # a status query on the control socket (it must change nothing, so it only matters for what comes after it)
+            evs += [('status', n) for n in sorted(world.endpoints) if live(world.endpoints[n])]
         return evs
     return enabled
 
@@ -131,6 +134,8 @@ def apply_event(world, ev):
             b['trig' + ev[1]] -= 1
         else:
             b['trig'] -= 1
+    if k == 'status':
+        b['status'] -= 1
     if k == 'timeout':
         b['tick'] -= 1
         dl = next_retransmit_deadline(world)
